@@ -55,6 +55,13 @@ Proof. exact load_type_generated. Qed.
 Theorem C06_ir_alloca_generated : forall bodies e a,
   run_type "ir.InstAlloca" [("ElemType", reify_ty e); ("AddrSpace", VEnum "types.AddrSpace" (Z.of_N a)); ("NElems", VNil)] = expect (ir_type bodies (Alloca e a)).
 Proof. exact alloca_type_generated. Qed.
+(* the same regenerated body when the type was cached with another address space (NewAlloca caches it before
+   the caller can assign AddrSpace; KF-37, fixed): the type returned carries the current address space *)
+Theorem C06_ir_alloca_stale_cache_generated : forall bodies e a a0,
+  call_printer impl globals 3 "ir.InstAlloca" "Type"
+    (VObj "ir.InstAlloca" [("Typ", reify_ty (TPtr e a0)); ("ElemType", reify_ty e); ("AddrSpace", VEnum "types.AddrSpace" (Z.of_N a)); ("NElems", VNil)])
+  = expect (ir_type bodies (Alloca e a)).
+Proof. exact alloca_type_stale_cache_generated. Qed.
 Theorem C06_ir_phi_generated : forall bodies d x,
   run_type "ir.InstPhi" [("Incs", VList [VObj "ir.Incoming" [("X", operand d)]; VObj "ir.Incoming" [("X", operand x)]])] = expect (ir_type bodies (Phi d [d; x])).
 Proof. exact phi_type_generated. Qed.
